@@ -58,6 +58,7 @@ class UnitSpec:
         self.default_props = []
         self.specfile = None
         self.assumptions = []
+        self.verus_args = []
 
 
 def parse_props(tok):
@@ -87,7 +88,9 @@ def parse_spec(path):
         s = ln.strip()
         if section is None and (not s or s.startswith("#")):
             continue
-        if s.startswith("@assume"):
+        if s.startswith("@args"):
+            u.verus_args += s.split()[1:]
+        elif s.startswith("@assume"):
             u.assumptions.append(s[len("@assume"):].strip())
         elif s.startswith("@unit"):
             u.name = s.split()[1]
